@@ -57,6 +57,9 @@ def run(ctx):
     for esz, hasx in ([(8, True)] if ctx.quick else [(1, False), (24, True)]):
         impl_phase(ctx, f"rand-e{esz}", exe, ["random", ctx.seed, 2500 if ctx.quick else 20000, 3], [esz, int(hasx), 150 if ctx.quick else 240, 1],
                    "TraceVec", "", consts(esz, hasx), props)
+    # a million 12-byte elements with constructor and destructor: counts, bytes kept across reallocations, capacities
+    from . import p_big
+    p_big.big_phase(ctx, ["vec:1000000"] if ctx.quick else ["vec:1000000", "vec:5000000"])
     ctx.assumptions += [
         "TLC and the TLA+ text of StorageOK / KeepOK / XtorOK / C09OK are trusted",
         "allocation sizes and liveness come from the link-time allocator interposer (harness/alloc.h), which refuses requests >= 2^40 bytes",
